@@ -21,7 +21,7 @@ CONSTANTS MaxPosts, Sessions
 Kinds == {"request", "notification"}
 Statuses == {200, 202, 204, 302, 404, 500}
 CTypes == {"json", "sse", "other", "absent"}
-Bodies == {"resp", "respNonObj", "errResp", "batch", "notifsThenResp", "wrongId", "empty", "truncated", "nonJson", "nonUtf8", "text"}
+Bodies == {"resp", "respNonObj", "errResp", "batch", "notifsThenResp", "wrongId", "errNullId", "errOtherId", "empty", "truncated", "nonJson", "nonUtf8", "text"}
 Encs == {"std", "noEvent", "noSpace", "crlf", "cr", "comments", "multiData", "pingFirst"}
 Excs == {"none", "connect", "timeout", "protocol"}
 SessH == {"absent"} \cup Sessions
@@ -33,7 +33,8 @@ Meaningful(b) ==
   /\ (b.exc # "none" => b.status = 200 /\ b.ctype = "absent" /\ b.body = "empty" /\ b.enc = "std" /\ b.sess = "absent")
   /\ (b.enc # "std" => b.ctype = "sse" /\ b.body \in {"resp", "errResp", "notifsThenResp", "respNonObj"} /\ b.status = 200)
   /\ (b.status \in {204, 302} => b.body = "empty" /\ b.ctype = "absent")
-  /\ (b.status >= 400 => b.body \in {"empty", "text", "errResp"} /\ b.ctype \in {"json", "other", "absent"})
+  /\ (b.status >= 400 => b.body \in {"empty", "text", "errResp", "errNullId", "errOtherId"} /\ b.ctype \in {"json", "other", "absent"})
+  /\ (b.body \in {"errNullId", "errOtherId"} => b.ctype = "json" /\ b.enc = "std")
   /\ (b.status = 202 => b.body \in {"empty", "text"} /\ b.ctype \in {"other", "absent"})
   /\ (b.ctype = "absent" => b.body = "empty")
   /\ (b.ctype = "sse" => b.body \notin {"batch", "text", "nonJson"})
@@ -55,19 +56,24 @@ Contained(b) ==
     [] b.body = "batch" -> <<Item("notif", "none", "server"), Own("resp")>>
     [] b.body = "notifsThenResp" -> <<Item("notif", "none", "server"), Item("notif", "none", "server"), Own("resp")>>
     [] b.body = "wrongId" -> <<Item("resp", "other", "server")>>
+    [] b.body = "errNullId" -> <<Item("err", "none", "server")>>
+    [] b.body = "errOtherId" -> <<Item("err", "other", "server")>>
     [] OTHER -> <<>>
 
-WellFormedBody(b) == b.body \in {"resp", "respNonObj", "errResp", "batch", "notifsThenResp", "wrongId"}
+WellFormedBody(b) == b.body \in {"resp", "respNonObj", "errResp", "batch", "notifsThenResp", "wrongId", "errNullId", "errOtherId"}
+ForeignAnswer(b) == b.body \in {"wrongId", "errNullId", "errOtherId"}
 
 \* the statement's outcome relation
 \* the server answered under a different id: its message is delivered as it is; the transport
 \* may in addition close the request with a synthesised terminal
-WrongIdOutcomes == {Contained([body |-> "wrongId"])} \cup {Contained([body |-> "wrongId"]) \o d : d \in SynthOwn}
+ForeignOutcomes(b) == {Contained(b)} \cup {Contained(b) \o d : d \in SynthOwn}
 Allowed(kind, b) ==
   LET synth == IF kind = "request" THEN SynthOwn ELSE SynthNone IN
   IF b.exc # "none" THEN synth
-  ELSE IF b.status < 400 /\ b.body = "wrongId" /\ kind = "request" THEN WrongIdOutcomes
-  ELSE IF b.status >= 400 THEN synth
+  ELSE IF b.status < 400 /\ ForeignAnswer(b) /\ kind = "request" THEN ForeignOutcomes(b)
+  \* an error status always owes the request a terminal with ITS id; a JSON-RPC error body under
+  \* another (or no) id may be passed on in addition, never instead
+  ELSE IF b.status >= 400 THEN (IF ForeignAnswer(b) /\ kind = "request" THEN synth \cup {Contained(b) \o d : d \in SynthOwn} ELSE synth)
   ELSE IF b.ctype = "json" THEN (IF WellFormedBody(b) THEN {Contained(b)} ELSE synth)
   ELSE IF b.ctype = "sse" THEN
        (IF WellFormedBody(b) THEN {Contained(b)}
@@ -102,7 +108,7 @@ CountOwn(d) == Cardinality({i \in DOMAIN d : d[i].id = "own"})
 \* under a different id), nothing with the request's id... and nothing with ANY id for a notification
 OneTerminal ==
   \A i \in DOMAIN posts :
-     /\ (posts[i].kind = "request" /\ posts[i].beh.body # "wrongId" => CountOwn(reads[i]) = 1)
+     /\ (posts[i].kind = "request" /\ ~(ForeignAnswer(posts[i].beh) /\ posts[i].beh.status < 400) => CountOwn(reads[i]) = 1)
      /\ (posts[i].kind = "notification" /\ ~WellFormedBody(posts[i].beh) => \A j \in DOMAIN reads[i] : reads[i][j].id = "none")
 NoInvention == \A i \in DOMAIN posts : reads[i] \in Allowed(posts[i].kind, posts[i].beh)
 Survives == alive
